@@ -409,6 +409,10 @@ func (c *Ctx) needBytesTheory() {
 		ax("sub_split", "(forall ((a Bytes) (i Int) (j Int) (k Int)) (! (=> (and (<= 0 i) (<= i j) (<= j k) (<= k (blen a))) (= (bcat (bsub a i j) (bsub a j k)) (bsub a i k))) :pattern ((bcat (bsub a i j) (bsub a j k)))))")
 		ax("sub_snoc", "(forall ((a Bytes) (i Int) (j Int)) (! (=> (and (<= 0 i) (<= i j) (< j (blen a))) (= (bsub a i (+ j 1)) (bcat (bsub a i j) (bunit (bat a j))))) :pattern ((bsub a i (+ j 1)))))")
 		ax("seq_len", "(forall ((E (Array Ref Int)) (r Ref) (o Int) (n Int)) (! (=> (<= 0 n) (= (blen (seq8 E r o n)) n)) :pattern ((seq8 E r o n))))")
+		ax("seq_unit", "(forall ((E (Array Ref Int)) (r Ref) (o Int)) (! (= (seq8 E r o 1) (bunit (select E (elem r o)))) :pattern ((seq8 E r o 1))))")
+		ax("seq_snoc", "(forall ((E (Array Ref Int)) (r Ref) (o Int) (n Int)) (! (=> (<= 0 n) (= (seq8 E r o (+ n 1)) (bcat (seq8 E r o n) (bunit (select E (elem r (+ o n))))))) :pattern ((seq8 E r o (+ n 1)))))")
+		ax("seq_frame", "(forall ((E (Array Ref Int)) (F (Array Ref Int)) (r Ref) (o Int) (n Int)) (! (=> (forall ((k Int)) (=> (and (<= 0 k) (< k n)) (= (select E (elem r (+ o k))) (select F (elem r (+ o k)))))) (= (seq8 E r o n) (seq8 F r o n))) :pattern ((seq8 E r o n) (seq8 F r o n))))")
+		ax("seq_sub", "(forall ((E (Array Ref Int)) (r Ref) (o Int) (n Int) (i Int) (j Int)) (! (=> (and (<= 0 i) (<= i j) (<= j n)) (= (bsub (seq8 E r o n) i j) (seq8 E r (+ o i) (- j i)))) :pattern ((bsub (seq8 E r o n) i j))))")
 		ax("seq_at", "(forall ((E (Array Ref Int)) (r Ref) (o Int) (n Int) (k Int)) (! (=> (and (<= 0 k) (< k n)) (= (bat (seq8 E r o n) k) (select E (elem r (+ o k))))) :pattern ((bat (seq8 E r o n) k))))")
 	}
 }
